@@ -4,6 +4,7 @@ import random, itertools
 import genprog
 import pstreams2 as P2
 import pstreams3 as P3
+import pstreams4 as P4
 from genprog import bn, Gen, Scope, render
 
 T, F = 'সত্য', 'মিথ্যা'
@@ -204,7 +205,7 @@ def c02_cases(rng, tier):
         cases.append({'src': prog(['নাম শূ;', 'যদি মিথ্যা {', '} অথবা যদি %s {' % c, '    দেখাও "ভিতরে";', '}', 'দেখাও "পরে";']), 'alone': None, 'kind': 'nonbool'})
     for src in P2.repeated_chain_programs(rng, 120 if tier != 'thorough' else 800):
         cases.append({'src': src, 'alone': None, 'kind': 'repeated-chain'})
-    for c in P3.special_float_chain_programs() + P3.chain_junction_programs(rng, 80 if tier != 'thorough' else 600):
+    for c in P3.special_float_chain_programs() + P3.chain_junction_programs(rng, 80 if tier != 'thorough' else 600) + P4.chain_block_shape_programs(rng, 150 if tier != 'thorough' else 1000):
         cases.append(dict(c, alone=None))
     return cases
 
@@ -284,6 +285,7 @@ def c03_cases(rng, tier):
     for src in P2.loop_depth_programs(rng, 60 if tier != 'thorough' else 400):
         cases.append({'src': src, 'kind': 'loop-depths', 'budget': 60000})
     cases += P3.nested_loop_return_programs(rng, 60 if tier != 'thorough' else 400)
+    cases += P4.many_locals_programs(rng, 80 if tier != 'thorough' else 500)
     return cases
 
 
@@ -356,13 +358,14 @@ def c05_cases(rng, tier):
         cases.append({'src': src, 'kind': 'loop-depths', 'budget': 60000})
     cases += P2.callee_alloc_programs()
     cases += P3.closing_return_programs(rng, 80 if tier != 'thorough' else 500)
+    cases += P4.higher_order_programs(rng, 80 if tier != 'thorough' else 500) + P4.self_tail_call_programs(rng, 40 if tier != 'thorough' else 300)
     cases += P3.nested_loop_return_programs(rng, 20 if tier != 'thorough' else 100)
     return cases
 
 
 # ------------------------------------------------------------------------------------------------ C04 scopes
 def c04_cases(rng, tier):
-    cases = []
+    cases = P4.shadowed_scalar_index_programs() + P4.many_locals_programs(rng, 40 if tier != 'thorough' else 300) + P4.higher_order_programs(rng, 30 if tier != 'thorough' else 200)
     for src in function_depth_loop_programs(rng, 40 if tier != 'thorough' else 300):
         cases.append({'src': src, 'kind': 'scopes function-depths'})
     n = 1500 if tier == 'thorough' else 300
@@ -454,6 +457,8 @@ def c06_cases(rng, tier):
     for _ in range(10):
         cases.append({'src': prog(['নাম ধরে = [[১], [২], [৩]];'] + P2.record_reuse_lines(rng) + P2.record_reuse_lines(rng)), 'kind': 'record-reuse'})
     cases += P3.self_containing_programs(rng, 60 if tier != 'thorough' else 400)
+    k4 = 60 if tier != 'thorough' else 400
+    cases += P4.assignment_order_programs(rng, k4) + P4.expression_statement_programs(rng, k4) + P4.concat_nested_identity_programs(rng, k4) + P4.shadowed_scalar_index_programs()
     return cases
 
 
@@ -480,6 +485,7 @@ def c16_cases(rng, tier):
         cases.append({'src': prog(lines), 'kind': 'listops', 'keep_going': True})
     for src in P2.concat_fresh_programs(rng, 60):
         cases.append({'src': src, 'kind': 'concat-fresh'})
+    cases += P4.expression_statement_programs(rng, 60 if tier != 'thorough' else 400)
     return cases
 
 
@@ -521,7 +527,7 @@ def c17_cases(rng, tier):
         cases.append({'src': prog(['নাম শূ;', 'ফাং ফ() {', '} ফেরত;', 'দেখাও _টাইপ(%s);' % e]), 'kind': 'type'})
     for bad in ['_টাইপ()', '_টাইপ(১, ২)', '_স্ট্রিং-স্প্লিট("a")', '_স্ট্রিং-স্প্লিট("a", ১)', '_স্ট্রিং-স্প্লিট(১, "a")', '_স্ট্রিং-জয়েন(["a"])', '_স্ট্রিং-জয়েন(["a", ১], ",")', '_স্ট্রিং-জয়েন("a", ",")', '_স্ট্রিং-জয়েন(["a"], ১)', '_স্ট্রিং-স্প্লিট("a", "b", "c")']:
         cases.append({'src': prog(['দেখাও "আগে";', 'দেখাও %s;' % bad, 'দেখাও "পরে";']), 'kind': 'badargs'})
-    cases += P3.text_oddities()
+    cases += P3.text_oddities() + P4.unbound_split_programs(rng, 20 if tier != 'thorough' else 100) + P4.file_text_split_programs()
     return cases
 
 
@@ -549,7 +555,7 @@ def c18_cases(rng, tier):
             elif k < 0.9: lines.append(rng.choice(['দেখাও শূ;', 'দেখাও [১, শূ];', 'দেখাও ফ;', '_দেখাও @{"k" -> ফ,};', 'দেখাও [১, ১০ / ০];', '_দেখাও শূ;', 'দেখাও ০ / ০;']))
             else: lines.append('_লিস্ট-পুশ(ভাগা, %s);' % rng.choice(scal))
         cases.append({'src': prog(['নাম শূ;', 'ফাং ফ() {', '} ফেরত;'] + lines), 'kind': 'print'})
-    cases += P3.big_print_programs()
+    cases += P3.big_print_programs() + P4.print_state_programs(rng, 150 if tier != 'thorough' else 1000)
     return cases
 
 
@@ -635,6 +641,7 @@ def c13_cases(rng, tier):
                 else:
                     cases.append({'src': prog(body), 'kind': 'fault stale-name'})
     cases += P3.negative_fraction_write_programs()
+    cases += P4.assignment_order_programs(rng, 100 if tier != 'thorough' else 600) + P4.higher_order_programs(rng, 40 if tier != 'thorough' else 300)
     # structural faults
     for s in [['}'], ['যদি মিথ্যা {'], ['অথবা {', '}'], ['ফাং ফ() {'], ['ফাং ফ()', 'দেখাও ১;'], ['লুপ {', '}'], ['ফেরত ১;'], ['ফাং', 'দেখাও ১;'], ['যদি মিথ্যা', 'দেখাও ১;']]:
         cases.append({'src': prog(['দেখাও "আগে";'] + s + ['দেখাও "পরে";']), 'kind': 'structural'})
@@ -705,6 +712,7 @@ def c07_programs(rng, tier):
         if c['N'] == 1500: cases.append(dict(c, scheds=['e', 'n', '0' * 997 + '1']))
     for c in P3.temporaries_programs(rng, 2):
         cases.append(dict(c, scheds=['e', 'n', '0' * 211 + '1']))
+    cases += P4.gc_root_programs(rng, 10 if tier != 'thorough' else 60)
     return cases
 
 
@@ -728,6 +736,12 @@ def c08_programs(rng, tier):
             src = prog(pre + ['নাম রাখা = [০];', 'নাম ই = ০;', 'লুপ {', '    যদি ই >= %s {' % bn(N), '        থামাও;', '    }', '    ই = ই + ১;', '    ' + body, '} আবার;', 'দেখাও ই;'])
             cases.append({'src': src, 'kind': 'alloc-loop %s' % name2, 'route': name2, 'N': N, 'budget': 40 * N + 30000})
     cases += [c for c in P3.deep_chain_programs() if c['live'] > 1000]
+    for wname, wpre, wsuf, _ in P4.nested_alloc_wrappers():
+        for name in ('one', 'empty-rec', 'split', 'nested'):
+            for N in Ns:
+                inner = ['নাম ই = ০;', 'লুপ {', '    যদি ই >= %s {' % bn(N), '        থামাও;', '    }', '    ই = ই + ১;', '    ' + bodies[name], '} আবার;']
+                src = prog(['নাম রাখা = [০];'] + wpre + ind(inner) + wsuf + ['দেখাও "শেষ";'])
+                cases.append({'src': src, 'kind': 'alloc-loop %s' % (wname + name), 'route': wname + name, 'N': N, 'budget': 40 * N + 30000})
     return cases
 
 
@@ -749,7 +763,7 @@ def c09_literal_cases(rng, tier):
         lits.append(lit)
     for l in lits:
         cases.append({'src': prog(['নাম ক = %s;' % l, 'দেখাও ক;', 'দেখাও _স্ট্রিং(ক);', 'দেখাও _সংখ্যা(_স্ট্রিং(ক)) == ক;', 'দেখাও _সংখ্যা("%s") == ক;' % l.replace('"', '')]), 'kind': 'literal', 'lit': l})
-    for t in ['abc', '', '১২a', '১.২.৩', '--১', '১e৫', 'inf', 'NaN', '.', ' ১', '১ ', '+১', '১,০০০', '১২৩']:
+    for t in ['abc', '', '১২a', '১.২.৩', '--১', '১e৫', 'inf', 'NaN', '.', ' ১', '১ ', '+১', '১,০০০', '১২৩'] + P4.NUM_TEXTS_ZW:
         cases.append({'src': prog(['দেখাও "আগে";', 'দেখাও _সংখ্যা("%s");' % t, 'দেখাও "পরে";']), 'kind': 'to_num'})
     arith = ['১ / ৩', '২ / ৩', '০.১ + ০.২', '০.১ * ৩', '১ / ০', '-১ / ০', '০ / ০', '১০ / ৪', '২ * ০.৫', '১০০০০০০০০০০ * ১০০০০০০০০০০০০', '১ / ৩ * ৩', '৯০০৭১৯৯২৫৪৭৪০৯৯২ + ১', '৯০০৭১৯৯২৫৪৭৪০৯৯২ + ২',
              '৫ % ৩', '-৫ % ৩', '৫.৫ % ২', '১ / ১০০০০০০০', '১২৩৪৫৬৭৮৯ * ১২৩৪৫৬৭৮৯', '০ * -১', '১ - ০.৯']
@@ -813,7 +827,9 @@ def c15_cases(rng, tier):
                       'files': [('a.pakhi', prog(pre + ['মডিউল খ = "b.pakhi";', 'দেখাও "a";'])), ('b.pakhi', prog(pre + ['মডিউল গ = "a.pakhi";', 'দেখাও "b";']))], 'kind': 'inner-cycle'})
         cases.append({'src': prog(['মডিউল ক = "a.pakhi";', 'দেখাও "main";']),
                       'files': [('a.pakhi', prog(pre + ['মডিউল খ = "b.pakhi";', 'দেখাও "a";'])), ('b.pakhi', prog(pre + ['মডিউল গ = "c.pakhi";', 'দেখাও "b";'])), ('c.pakhi', prog(pre + ['মডিউল ঘ = "b.pakhi";', 'দেখাও "c";']))], 'kind': 'inner-cycle'})
-    cases += P3.import_graph_oddities() + P3.module_alias_programs()
+    cases += P3.import_graph_oddities() + P3.module_alias_programs() + P4.reimport_programs()
+    for stmt in P4.IMPORT_FORMS2:
+        cases.append({'src': prog(['দেখাও "আগে";', stmt, 'দেখাও "পরে";']), 'files': [('mod.pakhi', 'দেখাও "mod";\n')], 'kind': 'import-forms'})
     return cases
 
 
@@ -855,7 +871,7 @@ def c14_cases(rng, tier):
                            'দেখাও %s/ছায়া(৩, ৪);' % aliases[i], 'দেখাও %s/মান;' % aliases[i]]
         main_lines += ['দেখাও মান;', 'মান = ৫;', 'দেখাও %s/মান;' % aliases[0], 'দেখাও তালিকা;' if rng.random() < 0.3 else 'দেখাও "শেষ";', 'দেখাও _রিড-ফাইল(_ডাইরেক্টরি + "root.txt");']
         cases.append({'src': prog(main_lines), 'files': mods + datafiles, 'kind': 'modules', 'main': 'app/main.pakhi'})
-    cases += P3.module_alias_programs() + [c for c in P3.import_graph_oddities() if c['kind'] in ('chain-slash-alias', 'diamond-slash-alias', 'case-distinct-files')]
+    cases += P3.module_alias_programs() + [c for c in P3.import_graph_oddities() if c['kind'] in ('chain-slash-alias', 'diamond-slash-alias', 'case-distinct-files')] + P4.reimport_programs()
     return cases
 
 
@@ -907,6 +923,13 @@ def c19_cases(rng, tier):
     fl1, fl2 = P3.free_list_history_p1(), P3.free_list_p2()
     for a_ in fl1:
         for b_ in fl2: cases.append({'p1': prog(a_), 'p2': prog(b_), 'kind': 'compose free-list-history', 'budget': 60000})
+    zero_p1 = [['নাম গো = ৩;', 'লুপ {', '    দেখাও গো;', '    যদি গো == ০ {', '        থামাও;', '    }', '    গো = গো - ১;', '} আবার;'], ['দেখাও ০;'], ['দেখাও -০;'], ['_দেখাও [০];', 'দেখাও "";'], ['নাম আর = @{"ক" -> ১,};', '_দেখাও আর;', 'দেখাও "";']]
+    zero_p2 = [['দেখাও ০ * -৫;', 'দেখাও [০ * -৫];'], ['দেখাও ০;', 'দেখাও [-০, ০];'], ['নাম দ্বির = @{"ক" -> ১,};', 'দেখাও [দ্বির, [দ্বির]];', '_দেখাও দ্বির;', 'দেখাও [দ্বির];']]
+    for a_ in zero_p1:
+        for b_ in zero_p2: cases.append({'p1': prog(a_), 'p2': prog(b_), 'kind': 'compose print-state'})
+    shadow_p2 = ['নাম দ্বিতা = [১, ২, ৩];', 'নাম দ্বির = @{"k" -> [৪],};', '{', '    নাম দ্বিতা = [৯, ৯];', '    নাম দ্বির = ০;', '    নাম দ্বিন = [৭];', '    দেখাও দ্বিতা;', '}', 'নাম দ্বিপরে = [০, ০];', 'দেখাও দ্বিতা;', 'দেখাও দ্বির;', 'দেখাও দ্বিপরে;']
+    for a_ in [HISTORIES[4], ['নাম আই = ০;', 'লুপ {', '    আই = আই + ১;', '    যদি আই > ১৯৯ {', '        থামাও;', '    }', '    নাম আবর্জ = [আই, আই, আই, আই];', '} আবার;']]:
+        for sc in ['n', '1', '01', '001']: cases.append({'p1': prog(a_), 'p2': prog(shadow_p2), 'kind': 'compose shadow-gc', 'sched': sc, 'budget': 20000})
     for a_ in P3.free_list_forced_p1(rng, 40 if tier != 'thorough' else 300):
         cases.append({'p1': prog(a_), 'p2': prog(fl2[0]), 'kind': 'compose free-list-forced', 'sched': rng.choice(['1', '1', '10', '110', '01', '1110'])})
     for c in P2.callee_alloc_programs()[:3]:
@@ -983,6 +1006,7 @@ def c20_cases(rng, tier):
                 import re as _re
                 case['respelled'] = [_re.sub(r'\("([^"]*)"', lambda mo: '("%s%s"' % (rng.choice(['', './', './', './/']) if mo.group(1) else '', mo.group(1)), l, count=1) for l in lines]
             cases.append(case)
+    cases += P4.fs_extra_programs()
     # read, change through another spelling of the same path, read again
     for pth in ['f.txt', 'নথি.txt', 'd/g.txt']:
         for alt in ['./', './/', './././']:
